@@ -1035,8 +1035,12 @@ func flowRoots(v ssa.Value, through func(c *ssa.Call) []ssa.Value) []ssa.Value {
 		case *ssa.MakeInterface:
 			walk(x.X)
 		case *ssa.Extract:
-			// extract of a call result: treat the call as the carrier
-			walk(x.Tuple)
+			// extract of a call result: the call is the carrier; components of next/lookup/select tuples stay roots
+			if _, isCall := x.Tuple.(*ssa.Call); isCall {
+				walk(x.Tuple)
+			} else {
+				roots = append(roots, v)
+			}
 		case *ssa.UnOp:
 			if x.Op == token.MUL {
 				if a, ok := x.X.(*ssa.Alloc); ok {
@@ -1080,5 +1084,34 @@ func rootStrings(rs []ssa.Value) []string {
 		out = append(out, expr(r))
 	}
 	sort.Strings(out)
+	return out
+}
+
+// results returns the operands of a Return, seeing through the spill that go/ssa inserts in functions
+// with defers (results are stored to locals before `rundefers` and re-loaded for the Return).
+func results(r *ssa.Return) []ssa.Value {
+	out := make([]ssa.Value, len(r.Results))
+	b := r.Block()
+	idx := instrIndex(r)
+	for i, v := range r.Results {
+		out[i] = v
+		u, ok := v.(*ssa.UnOp)
+		if !ok || u.Op != token.MUL {
+			continue
+		}
+		a, ok := u.X.(*ssa.Alloc)
+		if !ok || a.Heap {
+			// named results captured by closures are heap cells: use the last store in this block if any
+			if !ok {
+				continue
+			}
+		}
+		for j := idx - 1; j >= 0; j-- {
+			if st, ok := b.Instrs[j].(*ssa.Store); ok && st.Addr == ssa.Value(a) {
+				out[i] = st.Val
+				break
+			}
+		}
+	}
 	return out
 }
